@@ -406,11 +406,19 @@ func main() {
 		if p == nil {
 			fail("package %s not loaded", parts[0])
 		}
+		// a spec ending in "?" names a function that may be absent from the source (e.g. one added
+		// by a repair): its skeleton is then the empty list, so that the model can read "absent"
+		optional := strings.HasSuffix(parts[1], "?")
+		parts[1] = strings.TrimSuffix(parts[1], "?")
+		spec = strings.TrimSuffix(spec, "?")
 		fd := findFunc(p, parts[1])
-		if fd == nil {
+		if fd == nil && !optional {
 			fail("function %s not found", spec)
 		}
-		atoms := skeleton(p, fd, withBuiltins, withArgs)
+		var atoms []string
+		if fd != nil {
+			atoms = skeleton(p, fd, withBuiltins, withArgs)
+		}
 		fmt.Fprintf(&sb, "def %s : List String := [", leanName(spec))
 		for i, a := range atoms {
 			if i > 0 {
